@@ -50,7 +50,7 @@ func (p FullIntraRequest) Marshal() ([]byte, error) {
 
 // Unmarshal decodes the TransportLayerNack
 func (p *FullIntraRequest) Unmarshal(rawPacket []byte) error {
-	if len(rawPacket) < (headerLength + ssrcLength) {
+	if len(rawPacket) < (headerLength + 2*ssrcLength) {
 		return errPacketTooShort
 	}
 
